@@ -493,13 +493,18 @@ class ndarray:
             raise ValueError("can only convert an array of size 1 to a Python scalar")
         return _to_py(box(self._cells()[0], self.dtype))
     def put(self, indices, values):
-        self[list(indices)] = values
+        # C-level write: does not go through a subclass's __setitem__
+        ndarray.__setitem__(self, list(indices), values)
     def take(self, indices, axis=None):
         return self[indices if isinstance(indices, ndarray) else list(indices)]
     def flatten(self): return self.copy()
     ravel = flatten
     def fill(self, v):
         for i in self._idx: self._buf.cells[i] = unbox(v, self.dtype)
+    def __ior__(self, o):
+        r = self | o
+        ndarray.__setitem__(self, slice(None), r)
+        return self
     # --- indexing
     def _positions(self, key):
         """-> ("scalar", pos) | ("view", idx) | ("copy", [pos...])"""
@@ -1442,6 +1447,11 @@ def format_float_scientific(*a, **k): raise ModelGap("format_float_scientific")
 def load(*a, **k): raise ModelGap("np.load")
 def savez(*a, **k): raise ModelGap("np.savez")
 def savez_compressed(*a, **k): raise ModelGap("np.savez_compressed")
+
+class _IndexExpression:
+    def __getitem__(self, item): return item
+s_ = _IndexExpression()
+index_exp = _IndexExpression()
 
 def shares_memory(a, b):
     return a._buf is b._buf and builtins.bool(set(a._idx) & set(b._idx))
